@@ -170,7 +170,8 @@ PROPS = {
     "C14": P(
         "model_checking",
         "Explicit-state BFS of the real Subject to a fixpoint (closed state space: histories of any length over the alphabet are "
-        "covered) for limits 0,1,2 with 2 endpoints x 2 tokens x 2 paths (34 actions), plus 3 endpoints x 3 tokens on one path and 2 endpoints x 3 paths; "
+        "covered) for limits 0,1,2 with 2 endpoints x 2 tokens x 2 paths (34 actions), plus 3 endpoints x 3 tokens on one path and 2 endpoints x 3 paths "
+        "(thorough: 3 endpoints x 2 tokens x 2 paths at limits 0 and 1, up to 8.9 million states); "
         "every transition runs the real operation in lock-step with refmodel::subject and checks observer identity/order/tokens, "
         "one-observer-per-endpoint, frame conditions on all other paths and no entry creation by rounds. Plus histories without "
         "state merging (a setup, one action repeated 1..300 times, then every ordered pair of actions). The harness endpoint's "
